@@ -1,5 +1,7 @@
 /- `#print axioms` for every property theorem; machine-read by ./check -/
 import CoreDhcp.Props.C20
+import CoreDhcp.Props.C02
+import CoreDhcp.Props.C03
 open CoreDhcp
 #print axioms C20_offset_exact
 #print axioms C20_offset_symm
@@ -8,3 +10,8 @@ open CoreDhcp
 #print axioms C20_offset_spec
 #print axioms C20_addPrefixes_spec
 #print axioms C20_D1_prefix_refuted
+#print axioms C02_holds
+#print axioms C02_progress
+#print axioms C03_holds
+#print axioms C03_restore
+#print axioms C03_D7_prefix_refuted
